@@ -13,7 +13,7 @@ Overview: Provides reusable helper functions to eliminate duplication across lin
 Dependencies: BaseLintContext from src.core.base, ast for Python parsing
 
 Exports: get_metadata, get_metadata_value, load_linter_config, has_file_content, parse_python_ast,
-    with_parsed_python, resolve_file_path, is_ignored_path, get_line_context
+    with_parsed_python, resolve_file_path, is_ignored_path, path_in_project, get_line_context
 
 Interfaces: All functions take BaseLintContext and return typed values (dict, str, bool, Any)
 
@@ -28,6 +28,7 @@ Suppressions:
 
 import ast
 from collections.abc import Callable
+from pathlib import Path
 from typing import Any, Protocol, TypeVar
 
 from src.core.base import BaseLintContext
@@ -267,6 +268,33 @@ def resolve_file_path(context: BaseLintContext) -> str:
         File path string, or "unknown" if not available
     """
     return str(context.file_path) if context.file_path else "unknown"
+
+
+def path_in_project(context: BaseLintContext) -> str:
+    """Path of the linted file as seen from the project root, e.g. "/pkg/tests/test_x.py".
+
+    Path-based exemptions (test directories, per-linter ignore lists) are decided from this
+    string, so that they depend neither on where the project lives nor on how the target
+    was spelled on the command line. Falls back to the path as given when the file is not
+    inside the project root (or no project root is known).
+
+    Args:
+        context: Lint context with file_path and (optionally) "_project_root" metadata
+
+    Returns:
+        Project-relative POSIX path with a leading slash, or the original path string
+    """
+    file_path = getattr(context, "file_path", None)
+    if not file_path:
+        return ""
+    project_root = get_metadata(context).get("_project_root")
+    if project_root is not None:
+        try:
+            relative = Path(file_path).resolve().relative_to(Path(project_root).resolve())
+            return "/" + relative.as_posix()
+        except (ValueError, OSError):
+            pass
+    return str(file_path)
 
 
 def is_ignored_path(file_path: str, ignore_patterns: list[str]) -> bool:
